@@ -225,6 +225,15 @@ func (m *upvM) op(p []string) string {
 			}
 		}
 		t.VerifCallFunction(n[0])
+	case p[0] == "tc" && len(n) == 1:
+		fpi, src := m.live(t.VerifFpBytes()), m.live(t.VerifSpBytes()-upvVS*(n[0]+1))
+		if fpi < 0 || src < 0 || fpi > src {
+			return "oob"
+		}
+		if e := m.closeCheck(t.VerifFpBytes()); e != "" {
+			return e
+		}
+		t.VerifTailCallFunction(n[0])
 	case p[0] == "ret" && len(n) == 0:
 		if t.VerifCallDepth() == 0 {
 			return "noframe"
